@@ -8,7 +8,7 @@ theorem run_append (s : St) (a b : List Ev) : run s (a ++ b) = run (run s a) b :
   simp [run, List.foldl_append]
 
 macro "ev_cases " e:ident : tactic =>
-  `(tactic| rcases $e:ident with _ | _ | _ | _ | (_|_) | ⟨_, (_|_)⟩ | _ | _)
+  `(tactic| rcases $e:ident with _ | _ | _ | _ | (_|_) | _ | ⟨_, (_|_)⟩ | _ | _)
 
 theorem step_disc (s : St) (e : Ev) :
     (step s e).disc = s.disc + (if s.status = .connected ∧ (step s e).status = .reconnecting then 1 else 0)
@@ -237,7 +237,7 @@ theorem sinv_append (st st' : Status) (d n n' : Nat) (l ex : List Stream)
 theorem inv2_init : Inv2 {} := by simp [Inv2, SInv]
 
 theorem inv2_step (s : St) (e : Ev) (h : Inv2 s) : Inv2 (step s e) := by
-  rcases e with d | r | r | _ | (_|_) | ⟨sid, (_|_)⟩ | sid | _ <;> cases hst : s.status <;>
+  rcases e with d | r | r | _ | (_|_) | _ | ⟨sid, (_|_)⟩ | sid | _ <;> cases hst : s.status <;>
     simp only [Inv2, step, loseTransport, hst, ↓reduceIte, Bool.false_eq_true, reduceCtorEq] at h ⊢ <;>
     (try exact h)
   case openStream.connected =>
@@ -249,9 +249,20 @@ theorem inv2_step (s : St) (e : Ev) (h : Inv2 s) : Inv2 (step s e) := by
   case kill.connected =>
     exact sinv_map _ _ _ _ _ _ _ detach_id (fun x _ hk => sok_detach _ x hk) h
   case dial.true.reconnecting =>
-    refine sinv_append _ _ _ _ _ _ _ (fun x _ hk => sok_recover _ x hk) ?_ (by omega) ?_ rfl h
-    · rw [openPending_sids]; congr 1; omega
-    · intro x hx; have := openPending_mem _ _ x hx; exact ⟨this.1, this.2.1⟩
+    split
+    · dsimp only
+      refine sinv_append _ _ _ _ _ _ _ (fun x _ hk => sok_recover _ x hk) ?_ (by omega) ?_ rfl h
+      · rw [openPending_sids]; congr 1; omega
+      · intro x hx; have := openPending_mem _ _ x hx; exact ⟨this.1, this.2.1⟩
+    · rw [hst]; exact h
+  case dial.false.reconnecting =>
+    split
+    · exact h
+    · rw [hst]; exact h
+  case backoff.reconnecting =>
+    split
+    · rw [hst]; exact h
+    · exact h
   case resume.ok.connected =>
     split
     · next hany =>
@@ -289,7 +300,7 @@ theorem inv2_run (s : St) (evs : List Ev) (h : Inv2 s) : Inv2 (run s evs) := by
 /-! identity of streams through a step -/
 theorem step_streams_shape (s : St) (e : Ev) :
     (∃ ex, (step s e).streams = s.streams ++ ex) ∨ (∃ f, IdPres f ∧ (step s e).streams = s.streams.map f) := by
-  rcases e with d | r | r | _ | (_|_) | ⟨sid, (_|_)⟩ | sid | _ <;> cases hst : s.status <;>
+  rcases e with d | r | r | _ | (_|_) | _ | ⟨sid, (_|_)⟩ | sid | _ <;> cases hst : s.status <;>
     simp only [step, loseTransport, hst, ↓reduceIte, Bool.false_eq_true, reduceCtorEq] <;>
     (try (first | split | skip)) <;>
     first
@@ -316,7 +327,7 @@ theorem step_resumes (s : St) (e : Ev) :
     ∀ r ∈ (step s e).resumes, r ∈ s.resumes ∨
       (s.status = .connected ∧ r.1 = s.inc ∧ (∃ x ∈ s.streams, x.sid = r.2.1 ∧ x.streamAlias = r.2.2) ∧
         ∃ y ∈ s.streams, y.st = .resuming) := by
-  rcases e with d | r | r | _ | (_|_) | ⟨sid, (_|_)⟩ | sid | _ <;> cases hst : s.status <;>
+  rcases e with d | r | r | _ | (_|_) | _ | ⟨sid, (_|_)⟩ | sid | _ <;> cases hst : s.status <;>
     simp only [step, loseTransport, hst, ↓reduceIte, Bool.false_eq_true, reduceCtorEq] <;>
     (try (first | split | skip)) <;> (try (intro r hr; exact Or.inl hr))
   next hany =>
@@ -374,7 +385,7 @@ theorem step_keeps_closed_stream (s : St) (e : Ev) (x : Stream) (hx : x ∈ s.st
     split
     · next hs => exact hf hs
     · rfl
-  rcases e with d | r | r | _ | (_|_) | ⟨sid, (_|_)⟩ | sid | _ <;> cases hst : s.status <;>
+  rcases e with d | r | r | _ | (_|_) | _ | ⟨sid, (_|_)⟩ | sid | _ <;> cases hst : s.status <;>
     simp only [step, loseTransport, hst, ↓reduceIte, Bool.false_eq_true, reduceCtorEq] <;>
     (try (first | split | skip)) <;>
     first
